@@ -163,7 +163,9 @@ def unit_codec(direction):
 TR = TOpaque('Router')
 
 
-def unit_create_router(reuse, with_w, with_a):
+def unit_create_router(reuse, with_w, with_a, name_state=None):
+    """name_state: None (empty indexes) | 'once' (the nickname is already listed for one other relay of this document) |
+    'marked' (already marked as shared by several relays)"""
     def run(ctx):
         ctx.fn('txtorcon.torstate', 'TorState._create_router')
         ctx.fn('txtorcon.router', 'Router.update')
@@ -201,6 +203,18 @@ def unit_create_router(reuse, with_w, with_a):
             H[('f', old.oid, 'ip')] = VStr(z3.String('oldip'))
             H[('f', old.oid, 'controller')] = VOpaque('proto', 1)
             H[('f', old.oid, 'name_is_unique')] = VBool(z3.Bool('old_unique'))
+            # a well-formed Router from the previous document: every attribute the class sets
+            H[('f', old.oid, 'id_hex')] = VStr(id_hex)
+            H[('f', old.oid, 'id_hash')] = VStr(z3.String('old_idhash'))
+            H[('f', old.oid, 'or_hash')] = VStr(z3.String('old_orhash'))
+            H[('f', old.oid, 'or_port')] = VStr(z3.String('old_orport'))
+            H[('f', old.oid, 'dir_port')] = VStr(z3.String('old_dirport'))
+            H[('f', old.oid, '_modified')] = NONE
+            H[('f', old.oid, '_modified_unparsed')] = VStr(z3.String('old_modified'))
+            H[('f', old.oid, '_location')] = NONE
+            H[('f', old.oid, 'from_consensus')] = VBool(True)
+            H[('f', old.oid, 'accepted_ports')] = NONE
+            H[('f', old.oid, 'rejected_ports')] = NONE
             H[('f', o, '_old_routers')] = ex.new_dict(path, [(VStr(id_hex), old)])
         else:
             H[('f', o, '_old_routers')] = ex.new_dict(path, [])
@@ -208,6 +222,13 @@ def unit_create_router(reuse, with_w, with_a):
         for m in ('routers', 'routers_by_hash', 'routers_by_name', 'guards', 'authorities'):
             H[('f', o, m)] = ex.new_dict(path, [])
         H[('f', o, 'all_routers')] = VOpaque('allset', 2)
+        other = None
+        # A9: a nickname is 1..19 alphanumerics, so it is never a $-prefixed identity key
+        path.assume(z3.Not(z3.PrefixOf(mk_str('$'), vals['nickname'])))
+        if name_state is not None:
+            other = ex.new_inst(path, rt.Router)
+            H[('f', o, 'routers')] = ex.new_dict(path, [(VStr(vals['nickname']), other if name_state == 'once' else NONE)])
+            H[('f', o, 'routers_by_name')] = ex.new_dict(path, [(VStr(vals['nickname']), ex.new_list(path, [other]))])
         ctx.cover('pre_satisfiable', path)
         outs = ex.getattr_v(path, st, '_create_router')
         kw = {}
@@ -259,6 +280,20 @@ def unit_create_router(reuse, with_w, with_a):
             ctx.oblige('post.indexed_by_hash', p, B(len(byhash) == 1 and byhash[0][1] is not None and getattr(byhash[0][1], 'oid', None) == rr.oid))
             added = ctx.models.glog(p, 'all_routers_added')
             ctx.oblige('post.in_all_routers', p, B(len(added) == 1 and getattr(added[0], 'oid', None) == rr.oid))
+            # lookup by nickname: works exactly for nicknames unique in the document
+            by_nick = [v for k, v in pairs if isinstance(k, VStr) and z3.eq(z3.simplify(k.t), z3.simplify(vals['nickname']))]
+            if name_state is None:
+                ctx.oblige('post.first_relay_of_a_nickname_is_found_by_it', p, B(len(by_nick) == 1 and getattr(by_nick[0], 'oid', None) == rr.oid),
+                           clause='lookup by nickname works exactly for nicknames unique in that document')
+            else:
+                ctx.oblige('post.shared_nickname_resolves_to_nothing', p, B(len(by_nick) == 1 and isinstance(by_nick[0], VNone)),
+                           clause='lookup by nickname works exactly for nicknames unique in that document (a shared nickname is not resolved)')
+            byname = p.heap[('dict', p.heap[('f', o, 'routers_by_name')].did)]
+            lst = [v for k, v in byname if isinstance(k, VStr) and z3.eq(z3.simplify(k.t), z3.simplify(vals['nickname']))]
+            want_n = 1 if name_state is None else 2
+            okl = len(lst) == 1 and isinstance(lst[0], VList) and len(ex.list_items(p, lst[0])) == want_n \
+                and getattr(ex.list_items(p, lst[0])[-1], 'oid', None) == rr.oid
+            ctx.oblige('post.every_relay_of_a_nickname_is_listed_under_it', p, B(okl))
     return run
 
 
@@ -310,6 +345,8 @@ def units():
             for a in (True, False):
                 out.append(('C16/_create_router@%s/%s/%s' % ('reused' if reuse else 'new', 'w' if w else 'no_w', 'a' if a else 'no_a'),
                             unit_create_router(reuse, w, a)))
+    for ns in ('once', 'marked'):
+        out.append(('C16/_create_router@nickname_%s' % ns, unit_create_router(False, True, False, ns)))
     return out
 
 
